@@ -98,6 +98,13 @@
   parameter-level rejections; value lists whose values use the trailing-";" / junk-after-">" shapes; stored values of
   several PAI lines (only the counters).  Model tied to parse_from.go / parse_contact.go / parse_pai.go by the
   correspondence check.
+  SCOPE NOTES after the second sceptical review (AB1): the `_init` / `_schedule_init` / `_schedule_whole` message-level
+  theorems take the object of `Init` over ZERO-VALUED caller arrays (a stale finished contact slot changes the parse: `n = 1`
+  with the old URI — pinned); they drop the explicit first-line conjunct of `msg_lists` (the first-line offset is then fixed
+  only through the header block); in `RcLine` the colon position of the event is not tied to the one of `HsNameAt` (harmless:
+  a wrong colon is refuted by the value clause); `pai_lines_stored / _more / _get / pai_new_lines` are statements about the
+  fold `htLines` and become statements about the parser through `block_pais` and `msg_lists_init`; the sentence "stored
+  values of several PAI lines (only the counters)" in the list below is superseded by the PaiLines section above.
 -/
 import Sipsp.Proofs.NameAddrSpec
 import Sipsp.Proofs.NameAddrSpec2
